@@ -62,6 +62,9 @@ func init() {
 				r.Explanation += " ZERO-TRIVIAL (intrinsic): no function that checks a relation among hint outputs is satisfied, for arbitrary inputs, by the witness in which every hint output is zero (abstract interpretation with the domain 'provably zero under the all-zero hint witness'; multiplicatively homogeneous relations such as a·w == c^λ without a non-zero check are reported)."
 				RunZeroTrivial(p, r, pkgScope(flowAreas[id]...))
 				r.RequireMin("ZERO-TRIVIAL", 10)
+				r.Engines = append(r.Engines, "gadgetlints(BITS-COVER)")
+				r.Explanation += " BITS-COVER (intrinsic): when a hinted value is decomposed with ToBits (no explicit size) and the bits are read in a loop up to a separately computed bound, the decomposition is consumed as a whole somewhere — handed to a callee, indexed up to len(), or its tail bits[n:] referenced (asserted zero); otherwise the unread high bits of the hinted sub-scalar are free."
+				RunBitsCover(p, r, e, pkgScope(flowAreas[id]...))
 			}
 			if id == "C12" {
 				r.Engines = append(r.Engines, "emuwidth(EMU-WIDTH,EMU-FLAG)")
